@@ -288,7 +288,17 @@ Definition L (s : hstate) : Prop :=
 Variable m0 : bool.
 Definition Cl (s : hstate) : Prop :=
   clean (h_log s) -> sv_get (h_failed s) sv = None /\ sv_get (h_dead s) sv = None /\ (m0 = true -> sv_mem (h_nodes s) sv = true).
-Definition Inv (s : hstate) : Prop := G s /\ log_ok (h_log s) /\ L s /\ Cl s.
+(* rotation membership follows the eviction record: a server that is not evicted is in rotation exactly if it started there,
+   and only servers that started in rotation are ever evicted *)
+Definition Mo (s : hstate) : Prop :=
+  (sv_get (h_dead s) sv = None -> sv_mem (h_nodes s) sv = m0) /\ (sv_get (h_dead s) sv <> None -> m0 = true).
+Lemma Mo_same sf s : sv_get (h_dead sf) sv = sv_get (h_dead s) sv -> sv_mem (h_nodes sf) sv = sv_mem (h_nodes s) sv -> Mo s -> Mo sf.
+Proof. unfold Mo. intros -> ->. auto. Qed.
+Lemma Mo_evicted sf td : sv_get (h_dead sf) sv = Some td -> m0 = true -> Mo sf.
+Proof. unfold Mo. intros -> H. split; [discriminate|auto]. Qed.
+Lemma Mo_in_rotation s : Mo s -> sv_get (h_dead s) sv = None -> sv_mem (h_nodes s) sv = true -> m0 = true.
+Proof. intros [A _] Hd Hm. rewrite <- (A Hd). exact Hm. Qed.
+Definition Inv (s : hstate) : Prop := G s /\ log_ok (h_log s) /\ L s /\ Cl s /\ Mo s.
 
 Lemma le_hd_mono F a b : le_hd F a -> a <= b -> le_hd F b.
 Proof. destruct F; cbn; intros; [exact I|lia]. Qed.
@@ -310,8 +320,9 @@ Proof.
 Qed.
 Lemma Inv_frame s s' : Inv s -> FRs s s' -> Inv s'.
 Proof.
-  intros (Gs & Ls & Hs & Cs) F. destruct (F Gs) as [G' (A1 & A2 & A3 & A4 & A5 & A6 & A7)].
+  intros (Gs & Ls & Hs & Cs & Ms) F. destruct (F Gs) as [G' (A1 & A2 & A3 & A4 & A5 & A6 & A7)].
   split; [exact G'|]. split; [apply A6, Ls|]. split; [unfold L; rewrite A1, A2, A3, A4; apply (Lv_mono _ _ _ _ (h_last_time s)); assumption|].
+  split; [|apply (Mo_same s' s A2 A3 Ms)].
   unfold Cl. rewrite A1, A2, A3. intros X. apply Cs, A7, X.
 Qed.
 Lemma FR_inv {A} (m : HM A) s : FR m -> Inv s -> Inv (snd (m s)).
@@ -432,7 +443,7 @@ Proof. cbn [clean]. intros [H _]. specialize (H (list_eqb_refl sv)). discriminat
 (* ---- a call routed to sv ---- *)
 Lemma safely_sv m a d s : Inv s -> sv_mem (h_nodes s) sv = true -> Inv (snd (safely_run c sv (icall sv m a) d s)).
 Proof.
-  intros (Gs & Lg & Ls & Cs) Hm. unfold L, Lv in Ls. rewrite Hm in Ls. destruct Ls as (Hd & Hl & Ls).
+  intros (Gs & Lg & Ls & Cs & Ms) Hm. unfold L, Lv in Ls. rewrite Hm in Ls. destruct Ls as (Hd & Hl & Ls).
   set (F := cur_run (h_log s)) in *. set (T := h_last_time s) in *.
   unfold safely_run, htry. unfold hbind at 1.
   destruct (sv_get (h_failed s) sv) as [[att ft]|] eqn:Er; destruct (sv_get (h_dead s) sv) as [td|] eqn:Ed;
@@ -456,7 +467,8 @@ Proof.
            split.
            { unfold L, Lv. cbn [upd h_log h_failed h_dead h_nodes h_last_time]. rewrite I5, cur_run_sv, I2, I3, N2, N3, Ed.
              rewrite (sv_get_del_same (h_failed s) sv (g_failed s Gs)). split; [exact I|]. split; [exact I|]. exact I. }
-           apply (Cl_vac _ s); [|exact Cs|exact Hrec]. cbn [upd h_log]. rewrite I5, N4. apply clean_tail.
+           split; [apply (Cl_vac _ s); [|exact Cs|exact Hrec]; cbn [upd h_log]; rewrite I5, N4; apply clean_tail|].
+           apply (Mo_same _ s); [cbn [upd h_dead]; rewrite I3, N3; reflexivity|cbn [upd h_nodes]; rewrite I1, N1; reflexivity|exact Ms].
         -- (* failure: one more attempt is counted *)
            cbn [snd]. cbn [okout] in Ho. rewrite dispatch_os by exact Ho. rewrite snd_then.
            assert (R2 : sv_get (h_failed s2) sv = Some (att, ft)) by (rewrite I2, N2; exact Er).
@@ -469,7 +481,8 @@ Proof.
            { rewrite I5. apply log_ok_contact; [|rewrite N4; exact Lg]. rewrite <- I5, HF. apply head_ok_intro.
              - intros x Hx. apply nth_error_In in Hx. specialize (Hall x Hx). lia.
              - intros x Hx. rewrite EF in Hx, Hd, Hl. eapply (beyond_cycle C O T t _ x Hd Hl HTt Hs); [|exact Hx]; lia. }
-           split; [|apply (Cl_vac _ s); [|exact Cs|exact Hrec]; rewrite Lf, I5, N4; apply clean_tail].
+           split; [|split; [apply (Cl_vac _ s); [|exact Cs|exact Hrec]; rewrite Lf, I5, N4; apply clean_tail|
+                            apply (Mo_same _ s); [rewrite Df, I3, N3; reflexivity|rewrite Mf, I1, N1; reflexivity|exact Ms]]].
            unfold L, Lv. rewrite Rf, Df, I3, N3, Ed, Lf, HF, Tf.
            assert (HlF : le_hd F t) by (apply (le_hd_mono F T); assumption).
            split; [apply desc_cons; assumption|]. split; [cbn; lia|].
@@ -482,7 +495,7 @@ Proof.
            intros _. destruct C as [|c0 C']; [exact I|]. cbn [gap2]. rewrite EF in Hft. cbn in Hft. lia.
       * (* inside the window: no contact *)
         cbn [hbind hret snd]. unfold hbind. cbn [snd hret].
-        change s1 with (snd (Ok t, s1)). rewrite <- En. apply (FR_inv now s FR_now). split; [exact Gs|]. split; [exact Lg|]. split; [|exact Cs].
+        change s1 with (snd (Ok t, s1)). rewrite <- En. apply (FR_inv now s FR_now). split; [exact Gs|]. split; [exact Lg|]. split; [|split; [exact Cs|exact Ms]].
         unfold L, Lv. fold F T. rewrite Er, Ed. split; [exact Hd|]. split; [exact Hl|]. split; [exists C, O; auto 10|exact Hlong].
     + (* the budget is used up: evict, then one last contact *)
       assert (Hatt1 : 1 <= att) by lia.
@@ -495,7 +508,8 @@ Proof.
       * cbn [snd]. split; [exact G2|]. rewrite I5. cbn [isok].
         split; [apply log_ok_contact; [rewrite cur_run_sv; exact I|apply L1, Lg]|].
         split; [unfold L, Lv; rewrite I5, cur_run_sv, I2, I3, I1, R1, D1, M1, I4, T1'; repeat split; try exact I; lia|].
-        apply (Cl_vac _ s); [|exact Cs|exact Hrec]. rewrite I5. intros X. apply clean_tail in X. exact (K1 X).
+        split; [apply (Cl_vac _ s); [|exact Cs|exact Hrec]; rewrite I5; intros X; apply clean_tail in X; exact (K1 X)|].
+        apply (Mo_evicted s2 td); [rewrite I3; exact D1|apply (Mo_in_rotation s Ms Ed Hm)].
       * cbn [snd]. cbn [okout] in Ho. rewrite dispatch_os by exact Ho. rewrite snd_then'.
         assert (R2 : sv_get (h_failed s2) sv = None) by (rewrite I2; exact R1).
         destruct (mark_none_pos s2 G2 R2 ltac:(lia)) as (t' & Ht' & Gf & Rf & Df & Mf & Lf & Tf). cbn zeta in *.
@@ -509,7 +523,8 @@ Proof.
             + cbn [app nth_error] in Hx. destruct O as [|o O']; [discriminate|]. inversion Hx; subst x. cbn [sepO last] in Hs. cbn in Hl. lia.
             + cbn [app nth_error] in Hx. inversion Hx; subst x. specialize (Hgap Hatt1). cbn [gap2] in Hgap. cbn in Hl. lia.
           - intros x Hx. rewrite EF in Hx, Hd, Hl. eapply (beyond_cycle C O T td _ x Hd Hl T1 Hs); [|exact Hx]; lia. }
-        split; [|apply (Cl_vac _ s); [|exact Cs|exact Hrec]; rewrite Lf, I5; intros X; apply clean_tail in X; exact (K1 X)].
+        split; [|split; [apply (Cl_vac _ s); [|exact Cs|exact Hrec]; rewrite Lf, I5; intros X; apply clean_tail in X; exact (K1 X)|
+                         apply (Mo_evicted sf td); [rewrite Df, I3; exact D1|apply (Mo_in_rotation s Ms Ed Hm)]]].
         unfold L, Lv. rewrite Rf, Df, I3, D1, Lf, HF, Tf, Mf, I1, M1.
         split; [apply desc_cons; assumption|]. split; [cbn; lia|]. rewrite I4, T1' in Ht'. repeat split; try lia; cbn [length le_hd]; lia.
   - (* no record, not evicted *)
@@ -517,7 +532,8 @@ Proof.
     destruct o as [v|e].
     + cbn [snd]. split; [exact G1|]. rewrite I5. cbn [isok]. split; [apply log_ok_contact; [rewrite cur_run_sv; exact I|exact Lg]|].
       split; [unfold L, Lv; rewrite I5, cur_run_sv, I2, I3, Er, Ed; repeat split; exact I|].
-      unfold Cl. rewrite I5, I1, I2, I3. intros X. apply clean_tail in X. apply Cs, X.
+      split; [unfold Cl; rewrite I5, I1, I2, I3; intros X; apply clean_tail in X; apply Cs, X|].
+      apply (Mo_same s1 s); [rewrite I3; reflexivity|rewrite I1; reflexivity|exact Ms].
     + cbn [snd]. cbn [okout] in Ho. rewrite dispatch_os by exact Ho. rewrite snd_then.
       assert (R1 : sv_get (h_failed s1) sv = None) by (rewrite I2; exact Er).
       assert (HF : cur_run (h_log s1) = T :: F) by (rewrite I5, cur_run_sv; reflexivity).
@@ -532,7 +548,7 @@ Proof.
       * destruct (mark_none_pos s1 G1 R1 Hp) as (t' & Ht' & Gf & Rf & Df & Mf & Lf & Tf). cbn zeta in *.
         set (sf := snd (mark_failed c sv s1)) in *. rewrite I4 in Ht'. fold T in Ht'.
         split; [exact Gf|]. rewrite Lf. split; [exact Hlog1|].
-        split; [|intros X; exfalso; rewrite Lf in X; apply (Hnc [] X)].
+        split; [|split; [intros X; exfalso; rewrite Lf in X; apply (Hnc [] X)|apply (Mo_same sf s); [rewrite Df, I3; reflexivity|rewrite Mf, I1; reflexivity|exact Ms]]].
         unfold L, Lv. rewrite Rf, Df, I3, Ed, Lf, HF, Tf.
         split; [apply desc_cons; assumption|]. split; [cbn; lia|]. split; [|cbn [length]; lia].
         exists [T], F. split; [reflexivity|]. split.
@@ -542,7 +558,7 @@ Proof.
         destruct (mark_none_zero s1 G1 R1 Hz M1) as (td & Ht' & Gf & Rf & Df & Mf & Cf & Lf & Tf & Kf). cbn zeta in *.
         set (sf := snd (mark_failed c sv s1)) in *. rewrite I4 in Ht'. fold T in Ht'.
         split; [exact Gf|]. split; [apply Lf, Hlog1|].
-        split; [|intros X; exfalso; exact (Hnc [] (Kf X))].
+        split; [|split; [intros X; exfalso; exact (Hnc [] (Kf X))|apply (Mo_evicted sf td Df (Mo_in_rotation s Ms Ed Hm))]].
         unfold L, Lv. rewrite Rf, Df, Mf, Cf, HF, Tf.
         split; [apply desc_cons; assumption|]. split; [cbn; lia|]. repeat split; try lia. cbn. lia.
 Qed.
@@ -553,6 +569,12 @@ Proof.
   induction d as [|[k' v'] t IH]; intros H Hin; [destruct Hin|]. cbn [map fst] in H. inversion H as [|? ? Hn Ht]; subst. cbn [sv_get].
   destruct Hin as [Hin|Hin]; [inversion Hin; subst; rewrite list_eqb_refl; reflexivity|].
   destruct (list_eqb k' k) eqn:E; [apply list_eqb_eq in E; subst k'; exfalso; apply Hn; apply in_map_iff; exists (k, v); auto|apply IH; assumption].
+Qed.
+Lemma filter_keys_nodup {V} (f : server * V -> bool) (d : list (server * V)) : NoDup (map fst d) -> NoDup (map fst (filter f d)).
+Proof.
+  induction d as [|[k v] t IH]; intros H; [constructor|]. cbn [map fst] in H. inversion H as [|? ? Hn Ht]; subst. cbn [filter].
+  destruct (f (k, v)); [|apply IH, Ht]. cbn [map fst]. constructor; [|apply IH, Ht].
+  intros X. apply Hn. apply in_map_iff in X. destruct X as ([k' v'] & E & Hin). cbn in E. subst k'. apply filter_In in Hin. apply in_map_iff. exists (k, v'). split; [reflexivity|apply Hin].
 Qed.
 Definition revive_go (t : Z) : list server -> HM unit :=
   fix go (l : list server) : HM unit :=
@@ -567,12 +589,12 @@ Proof.
   intros N. apply FR_upd. intros s [G1 G2 G3 G4 G5]. split; [exact G1|]. split; [exact G2|]. split; [apply sv_del_nodup, G3|].
   split; [reflexivity|]. split; [reflexivity|apply sv_get_del_other, N].
 Qed.
-Lemma revive_sv t s : Inv s -> t <= h_last_time s -> (forall td, sv_get (h_dead s) sv = Some td -> t - td > dt) ->
+Lemma revive_sv t s : Inv s -> t <= h_last_time s -> (exists td, sv_get (h_dead s) sv = Some td /\ t - td > dt) ->
   let s3 := snd ((add_server sv ;;;; hlog (HRevive sv t) ;;;;
                   (fun s => (Ok tt, upd s (h_nodes s) (h_clients s) (h_failed s) (sv_del (h_dead s) sv) (h_last_check s)))) s) in
   Inv s3 /\ sv_get (h_dead s3) sv = None /\ h_last_time s3 = h_last_time s.
 Proof.
-  intros (Gs & Lg & Ls & Cs) Ht Hdead. cbn zeta. unfold hbind, add_server, hlog. cbn [snd upd h_nodes h_clients h_failed h_dead h_last_check h_time h_last_time h_out h_log].
+  intros (Gs & Lg & Ls & Cs & Ms) Ht (td0 & Hd0 & Hage). cbn zeta. unfold hbind, add_server, hlog. cbn [snd upd h_nodes h_clients h_failed h_dead h_last_check h_time h_last_time h_out h_log].
   destruct Gs as [G1 G2 G3 G4 G5].
   assert (Dn : sv_get (sv_del (h_dead s) sv) sv = None) by (apply sv_get_del_same, G3).
   split; [|split; [exact Dn|reflexivity]].
@@ -580,25 +602,31 @@ Proof.
   { constructor; cbn; try assumption; [|apply sv_del_nodup, G3].
     destruct (sv_mem (h_nodes s) sv) eqn:E; [exact G1|apply nodup_snoc; [exact G1|intros X; apply sv_mem_In in X; congruence]]. }
   split; [apply (log_ok_other (HRevive sv t)); [exact I|exact Lg]|].
+  assert (Hmem : sv_mem (if sv_mem (h_nodes s) sv then h_nodes s else h_nodes s ++ [sv]) sv = true).
+  { destruct (sv_mem (h_nodes s) sv) eqn:E; [exact E|]. unfold sv_mem. rewrite existsb_app. cbn [existsb]. rewrite list_eqb_refl. apply orb_true_iff. right. reflexivity. }
+  assert (Hm0 : m0 = true) by (apply (proj2 Ms); rewrite Hd0; discriminate).
   split.
-  2:{ unfold Cl in *. cbn [upd h_nodes h_clients h_failed h_dead h_last_check h_time h_last_time h_out h_log clean]. intros X.
-      destruct (Cs X) as (C1 & C2 & C3). split; [exact C1|]. split; [exact Dn|]. intros _.
-      destruct (sv_mem (h_nodes s) sv) eqn:E; [exact E|]. unfold sv_mem. rewrite existsb_app. cbn [existsb]. rewrite list_eqb_refl. apply orb_true_iff. right. reflexivity. }
+  2:{ split.
+      - unfold Cl in *. cbn [upd h_nodes h_clients h_failed h_dead h_last_check h_time h_last_time h_out h_log clean]. intros X.
+        destruct (Cs X) as (C1 & C2 & C3). split; [exact C1|]. split; [exact Dn|]. intros _. exact Hmem.
+      - unfold Mo. cbn [upd h_nodes h_dead]. rewrite Dn, Hmem, Hm0. split; [reflexivity|intros X; contradiction]. }
   unfold L, Lv in *. cbn [upd h_nodes h_clients h_failed h_dead h_last_check h_time h_last_time h_out h_log].
   rewrite Dn. rewrite (cur_run_other (HRevive sv t) (h_log s) I).
   destruct Ls as (Hd & Hl & Ls). split; [exact Hd|]. split; [exact Hl|].
-  destruct (sv_get (h_failed s) sv) as [[att ft]|]; destruct (sv_get (h_dead s) sv) as [td|] eqn:Ed; try exact Ls.
-  - destruct Ls as (A1 & A2 & A3 & A4 & A5 & A6 & A7). specialize (Hdead td eq_refl). split; [|lia].
+  rewrite Hd0 in Ls. rename td0 into td. pose proof Hage as Hdead.
+  destruct (sv_get (h_failed s) sv) as [[att ft]|].
+  - destruct Ls as (A1 & A2 & A3 & A4 & A5 & A6 & A7). split; [|lia].
     exists [], (cur_run (h_log s)). split; [reflexivity|]. split.
     { unfold sepO. destruct (cur_run (h_log s)) as [|o F']; [exact I|]. cbn [last]. cbn in A3. lia. }
     split; [lia|]. split; [exact A2|]. split; [cbn; lia|]. split; [apply (le_hd_mono _ td); assumption|]. split; [exact A5|]. intros X. lia.
-  - destruct Ls as (A1 & A2 & A3). specialize (Hdead td eq_refl).
+  - destruct Ls as (A1 & A2 & A3).
     unfold sepO. destruct (cur_run (h_log s)) as [|o F']; [exact I|]. cbn [last]. cbn in A1. lia.
 Qed.
-Lemma revive_go_inv t : forall l s, Inv s -> t <= h_last_time s -> (In sv l -> forall td, sv_get (h_dead s) sv = Some td -> t - td > dt) ->
+Lemma revive_go_inv t : forall l s, Inv s -> t <= h_last_time s -> NoDup l ->
+  (In sv l -> exists td, sv_get (h_dead s) sv = Some td /\ t - td > dt) ->
   Inv (snd (revive_go t l s)).
 Proof.
-  induction l as [|x r IH]; intros s Hi Ht Hdead.
+  induction l as [|x r IH]; intros s Hi Ht Hnd Hdead.
   - cbn [revive_go]. apply (FR_inv (fun s => (Ok tt, upd s (h_nodes s) (h_clients s) (h_failed s) (h_dead s) t)) s); [|exact Hi].
     apply (FR_upd tt (fun s => h_nodes s) (fun s => h_clients s) (fun s => h_failed s) (fun s => h_dead s) (fun _ => t)).
     intros s0 [G1 G2 G3 G4 G5]. repeat split; assumption.
@@ -616,26 +644,26 @@ Proof.
     + apply list_eqb_eq in Ex. subst x.
       destruct (revive_sv t s Hi Ht (Hdead (or_introl eq_refl))) as (I3 & D3 & T3). cbn zeta in *.
       fold one in I3, D3, T3. rewrite E1 in I3, D3, T3. cbn [snd] in *.
-      apply IH; [exact I3|lia|]. intros _ td Htd. rewrite D3 in Htd. discriminate.
+      apply IH; [exact I3|lia|apply (NoDup_cons_iff sv r), Hnd|]. intros Hin. exfalso. apply (NoDup_cons_iff sv r) in Hnd. apply (proj1 Hnd), Hin.
     + assert (Fone : FR one).
       { unfold one. apply FR_bind; [apply FR_add, Ex|]. intros _. apply FR_bind; [apply (FR_hlog (HRevive x t) I)|]. intros _. apply (FR_del_dead tt x Ex). }
       pose proof (Fone s) as F1. rewrite E1 in F1. cbn [snd] in F1.
       pose proof Hi as (Gs & Lg & Ls & Cs). destruct (F1 Gs) as [G1 (V1 & V2 & V3 & V4 & V5 & V6 & V7)].
-      apply IH; [apply (Inv_frame s); [exact Hi|exact F1]|lia|].
-      intros Hin td Htd. rewrite V2 in Htd. apply Hdead; [right; exact Hin|exact Htd].
+      apply IH; [apply (Inv_frame s); [exact Hi|exact F1]|lia|apply (NoDup_cons_iff x r), Hnd|].
+      intros Hin. rewrite V2. apply Hdead. right. exact Hin.
 Qed.
 Lemma retry_dead_eq : retry_dead c = (t <== now ;; fun s => if t - h_last_check s >? dt then revive_go t (map fst (filter (fun d => t - snd d >? dt) (h_dead s))) s else (Ok tt, s)).
 Proof. reflexivity. Qed.
 Lemma retry_dead_inv s : Inv s -> Inv (snd (retry_dead c s)).
 Proof.
-  intros Hi. rewrite retry_dead_eq. unfold hbind. destruct Hi as (Gs & Lg & Ls).
+  intros Hi. rewrite retry_dead_eq. unfold hbind. pose proof Hi as (Gs & _).
   destruct (now_sp s Gs) as (t & s1 & En & G1 & N1 & N2 & N3 & N4 & N5 & N6). rewrite En.
-  assert (I1 : Inv s1). { change s1 with (snd (Ok t, s1)). rewrite <- En. apply (FR_inv now s FR_now). split; [exact Gs|split; assumption]. }
+  assert (I1 : Inv s1). { change s1 with (snd (Ok t, s1)). rewrite <- En. apply (FR_inv now s FR_now). exact Hi. }
   destruct (t - h_last_check s1 >? dt); [|exact I1].
-  apply revive_go_inv; [exact I1|lia|].
-  intros Hin td Htd. apply in_map_iff in Hin. destruct Hin as ([k v] & Ek & Hf). cbn in Ek. subst k.
+  apply revive_go_inv; [exact I1|lia|apply filter_keys_nodup, (g_dead s1 G1)|].
+  intros Hin. apply in_map_iff in Hin. destruct Hin as ([k v] & Ek & Hf). cbn in Ek. subst k.
   apply filter_In in Hf. destruct Hf as [Hin Hp]. cbn [snd] in Hp.
-  rewrite (sv_get_in_nodup (h_dead s1) sv v (g_dead s1 G1) Hin) in Htd. inversion Htd; subst. lia.
+  exists v. split; [apply (sv_get_in_nodup (h_dead s1) sv v (g_dead s1 G1) Hin)|lia].
 Qed.
 
 (* ---- routing, one call, histories ---- *)
@@ -900,21 +928,48 @@ Proof.
   destruct (sv_mem acc x) eqn:E; [exact H|apply nodup_snoc; [exact H|intros X; apply sv_mem_In in X; congruence]].
 Qed.
 Lemma init_inv servers t0 times outs : mono t0 times -> Forall okout outs ->
-  (m0 = true -> sv_mem (h_nodes (init_hstate servers t0 times outs)) sv = true) -> Inv (init_hstate servers t0 times outs).
+  sv_mem (h_nodes (init_hstate servers t0 times outs)) sv = m0 -> Inv (init_hstate servers t0 times outs).
 Proof.
   intros Hm Ho H0. split; [constructor; cbn; try assumption; try constructor; apply init_nodup; constructor|].
-  split; [exact I|]. split; [unfold L, Lv; cbn; repeat split; exact I|]. intros _. split; [reflexivity|]. split; [reflexivity|exact H0].
+  split; [exact I|]. split; [unfold L, Lv; cbn; repeat split; exact I|]. split.
+  - intros _. split; [reflexivity|]. split; [reflexivity|]. intros X. rewrite H0. exact X.
+  - split; [intros _; exact H0|intros X; exfalso; apply X; reflexivity].
 Qed.
 
 (* every failing contact of sv, at the moment it was made, respected both windows; every eviction of sv (with retries
    configured) came after at least two failing contacts in a row; and while sv has not failed it has no failure record, is
    not evicted and - if it started in rotation - is still in rotation *)
 Theorem history_inv servers t0 times outs ops : mono t0 times -> Forall okout outs ->
-  (m0 = true -> sv_mem (h_nodes (init_hstate servers t0 times outs)) sv = true) ->
+  sv_mem (h_nodes (init_hstate servers t0 times outs)) sv = m0 ->
   Inv (snd (run_hops route c ops (init_hstate servers t0 times outs))).
 Proof. intros Hm Ho H0. apply (run_hops_inv ops _ (init_inv servers t0 times outs Hm Ho H0)). Qed.
 Theorem windows_hold servers t0 times outs ops : mono t0 times -> Forall okout outs ->
-  (m0 = true -> sv_mem (h_nodes (init_hstate servers t0 times outs)) sv = true) ->
+  sv_mem (h_nodes (init_hstate servers t0 times outs)) sv = m0 ->
   log_ok (h_log (snd (run_hops route c ops (init_hstate servers t0 times outs)))).
 Proof. intros Hm Ho H0. apply (history_inv servers t0 times outs ops Hm Ho H0). Qed.
+
+(* ---- recovery ---- *)
+(* when the check is due and every evicted server has been out for more than dead_timeout, one call's _retry_dead brings
+   all of them back: the eviction table is empty afterwards *)
+Lemma revive_go_dead t : forall l s, h_dead (snd (revive_go t l s)) = fold_left (fun d x => sv_del d x) l (h_dead s).
+Proof.
+  induction l as [|x r IH]; intros s; [reflexivity|]. cbn [revive_go fold_left]. unfold hbind, add_server, hlog. cbn [snd].
+  change ((fix go (l : list server) : HM unit := match l with
+        | [] => fun s => (Ok tt, upd s (h_nodes s) (h_clients s) (h_failed s) (h_dead s) t)
+        | x :: r => add_server x ;;;; hlog (HRevive x t) ;;;; (fun s => (Ok tt, upd s (h_nodes s) (h_clients s) (h_failed s) (sv_del (h_dead s) x) (h_last_check s))) ;;;; go r end) r) with (revive_go t r).
+  rewrite IH. reflexivity.
+Qed.
+Lemma del_all_keys {V} : forall d : list (server * V), fold_left (fun d x => sv_del d x) (map fst d) d = [].
+Proof. induction d as [|[k v] t IH]; [reflexivity|]. cbn [map fst fold_left sv_del]. rewrite list_eqb_refl. exact IH. Qed.
+Lemma filter_all {A} (f : A -> bool) l : (forall x, In x l -> f x = true) -> filter f l = l.
+Proof. induction l as [|a t IH]; intros H; [reflexivity|]. cbn [filter]. rewrite (H a (or_introl eq_refl)). f_equal. apply IH. intros x Hx. apply H. right. exact Hx. Qed.
+Theorem retry_dead_recovers s t rest : h_time s = t :: rest -> t - h_last_check s > dt ->
+  (forall x td, In (x, td) (h_dead s) -> t - td > dt) -> h_dead (snd (retry_dead c s)) = [].
+Proof.
+  intros Ht Hgate Hage. rewrite retry_dead_eq. unfold hbind, now. rewrite Ht. cbn [h_last_check h_dead].
+  destruct (Z.gtb_spec (t - h_last_check s) dt) as [_|X]; [|lia].
+  rewrite revive_go_dead. cbn [h_dead].
+  rewrite (filter_all (fun d => t - snd d >? dt) (h_dead s)); [apply del_all_keys|].
+  intros [x td] Hin. cbn [snd]. specialize (Hage x td Hin). destruct (Z.gtb_spec (t - td) dt); [reflexivity|lia].
+Qed.
 End Windows.
